@@ -201,7 +201,7 @@ func (tbl *Table) setApproach(_ Require, approach any, _ QueryTran) {
 func (tbl *Table) SetIndex(index []string, mode Mode) {
 	tbl.cursorMode = (mode == CursorMode)
 	if tbl.singleton {
-		index = tbl.allKeys[0]
+		index = []string{} // the empty key (not necessarily the first key)
 	}
 	tbl.index = index
 	tbl.iIndex = tbl.indexi(index)
